@@ -639,6 +639,9 @@ func (in *interp) http(s *Service, m *Method) {
 		if m.SkipRequestBody {
 			dsl.SkipRequestBodyEncodeDecode()
 		}
+		if m.Multipart {
+			dsl.MultipartRequest()
+		}
 		verb := map[string]func(string) *expr.RouteExpr{
 			"GET": dsl.GET, "POST": dsl.POST, "PUT": dsl.PUT, "DELETE": dsl.DELETE, "PATCH": dsl.PATCH,
 			"HEAD": dsl.HEAD, "OPTIONS": dsl.OPTIONS,
